@@ -352,6 +352,36 @@ def bounded_native(ck):
                     finally:
                         if os.path.exists(path):
                             os.unlink(path)
+                # a grid stored under a group other than the root of an HDF5 file
+                if dt is np.float64:
+                    path = os.path.join(tmp, "sub%d.h5" % n)
+                    n += 1
+                    try:
+                        g.write(path, format="hdf5", path="/tables/run 1")
+                        b = NssGrid.read(path, format="hdf5", path="/tables/run 1")
+                        if not (np.array_equal(b.data, data) and list(b.axis_names) == list(names) and all(np.array_equal(x, y) for x, y in zip(b.axes, axes))):
+                            fails.append({"obligation": "bounded.roundtrip", "clause": "a grid written under a non-root HDF5 group and read back from it equals the original", "input": {"format": "hdf5", "path": "/tables/run 1", "names": names},
+                                          "observed": {"names": list(b.axis_names)}})
+                    except Exception as ex:
+                        fails.append({"obligation": "bounded.roundtrip", "clause": "a grid written under a non-root HDF5 group can be read back from it", "input": {"format": "hdf5", "path": "/tables/run 1", "names": names}, "observed": repr(ex)[:160]})
+                    finally:
+                        if os.path.exists(path):
+                            os.unlink(path)
+                # exactly at every kind of node (first, interior, last): the stored sub-grid, bit for bit
+                if dt is np.float64 and len(names) > 1:
+                    for k_ in range(len(names)):
+                        ax_ = axes[k_].astype(np.float64)
+                        if len(np.unique(ax_)) != len(ax_):
+                            continue
+                        for j_ in sorted({0, len(ax_) // 2, len(ax_) - 1}):
+                            n += 1
+                            try:
+                                s_ = grid_slice_interp(NssGrid(data, [a.astype(np.float64) for a in axes], list(names)), ax_[j_], k_)
+                                if not np.array_equal(np.asarray(s_.data, dtype=np.float64), np.take(data, j_, axis=k_)):
+                                    fails.append({"obligation": "bounded.slice.nodes", "clause": "a slice taken exactly at a node (first, interior or last) is the stored sub-grid, bit for bit",
+                                                  "input": {"names": names, "axis": names[k_], "node": j_, "of": len(ax_), "value": float(ax_[j_])}, "observed": {"max abs error": float(np.abs(np.asarray(s_.data, dtype=np.float64) - np.take(data, j_, axis=k_)).max())}})
+                            except Exception as ex:
+                                fails.append({"obligation": "bounded.slice.nodes", "clause": "slicing at a node succeeds", "input": {"names": names, "axis": names[k_], "node": j_}, "observed": repr(ex)[:160]})
                 # slices: exact at nodes, blend in between (also for integer grids)
                 k = int(rng.integers(0, len(names)))
                 ax = axes[k].astype(np.float64)
